@@ -10,7 +10,8 @@ public:
       IterT * it[2];            // real iterators A, B
       RefIter ri[2];
       std::string lastResult;
-      World() : t(new TableT), u(new TableT) { it[0] = it[1] = NULL; }
+      int step;                 // operations applied so far
+      World() : step(0), t(new TableT), u(new TableT) { it[0] = it[1] = NULL; }
       ~World() { delete it[0]; delete it[1]; delete t; delete u; }
       TableT & Tab(int i) const { return i ? *u : *t; }
    private:
@@ -18,6 +19,7 @@ public:
    };
 
    std::vector<Op> ops; unsigned mask; int startSet; bool thorough; int layout;
+   bool checkEveryStep;
 
    // ------------------------------------------------------------ alphabet
    void A(unsigned m, OpKind k, int a = 0, int b = 0, int v = 0)
@@ -43,7 +45,7 @@ public:
       o.name = n; ops.push_back(o);
    }
 
-   HtModel(unsigned partMask, int ss, bool th, int lay) : mask(partMask), startSet(ss), thorough(th), layout(lay)
+   HtModel(unsigned partMask, int ss, bool th, int lay, bool ces) : mask(partMask), startSet(ss), thorough(th), layout(lay), checkEveryStep(ces)
    {
       const unsigned S = M_SMALL | M_FULL, C = M_CORE | M_SMALL | M_FULL, B = M_BOUND, W = M_BWIDE, H = M_HUGE, O = M_ORD, F = M_FULL, L = M_ALIAS;
       // keys: k0 (head), k3 (second), k1 (middle), k2 (tail) are present in the populated start states; k4, k5 are absent; k6 is never present
@@ -214,11 +216,14 @@ public:
    void Init(World & w, int s) const
    {
       const Start & st = starts[s];
+      if (LastSteps() > LevelLen()) LevelLen() = LastSteps();
+      LastSteps() = 0;
       SetConsoleLogLevel(MUSCLE_LOG_NONE);   // the out-of-memory warning of a failing Put (see MoveCtor) would otherwise be printed, with a stack trace, for every such transition
       const uint32 c = (uint32)st.hcap;
       g_hash[0] = 0; g_hash[1] = 0; g_hash[2] = 1; g_hash[3] = c; g_hash[4] = c; g_hash[5] = 2 * c; g_hash[6] = 3; g_hash[7] = 0;
       if (st.ensure) (void) w.t->EnsureSize((uint32)st.ensure);
-      for (int i = 0; i < st.fill; i++) { const HKey k(FillKey(i, st.fill)); const int v = FillVal(i); (void) w.t->Put(k, v); RPut(&w, T, w.m[T], k.id, v); }
+      w.m[T].reserve((size_t)st.fill + 8);
+      for (int i = 0; i < st.fill; i++) { const HKey k(FillKey(i, st.fill)); const int v = FillVal(i); (void) w.t->Put(k, v); if (KIND == 0) { KV e = {k.id, v}; w.m[T].push_back(e); } else RPut(&w, T, w.m[T], k.id, v); }   // keys of a start state are distinct
       { const HKey k4(4), k1(1); (void) w.u->Put(k4, 2); RPut(&w, U, w.m[U], 4, 2); (void) w.u->Put(k1, 3); RPut(&w, U, w.m[U], 1, 3); }
       if (st.park >= 0 && st.fill > 0) {
          const int pk = (st.park == 0) ? 0 : (st.park == 1) ? 1 : 2; const HKey k(pk);
@@ -228,6 +233,14 @@ public:
          }
       }
    }
+
+   // Oracle scheduling.  SEQX replays the whole history for every transition; all histories of one BFS level have the same length and every proper
+   // prefix of a history was itself the history of a transition of an earlier level, where the full oracle ran after its last operation (replays are
+   // deterministic, which the engine asserts).  So within one worker process the full oracle is evaluated after every operation of the first replay
+   // (which reveals the level's history length) and from then on after the LAST operation of each replay only; return values/statuses are compared at
+   // every step in any case.  --check-every-step 1 (and every --replay) evaluates the full oracle after every operation.
+   static int & LevelLen() { static int v = 0; return v; }
+   static int & LastSteps() { static int v = 0; return v; }
 
    // ------------------------------------------------------------ reference operations
    static int RFind(const RList & l, int k) { for (size_t i = 0; i < l.size(); i++) if (l[i].k == k) return (int)i; return -1; }
@@ -314,8 +327,25 @@ public:
    static void RCopyFrom(World * w, int tab, RList & l, const RList & src, bool clearFirst)
    {
       if (clearFirst) RClear(w, tab, l);
-      for (size_t i = 0; i < src.size(); i++) { const int j = RFind(l, src[i].k); if (j >= 0) l[j].v = src[i].v; else l.push_back(src[i]); }
+      const size_t orig = l.size();   // keys of src are distinct, so only the original entries can be hit
+      for (size_t i = 0; i < src.size(); i++) { int j = -1; for (size_t q = 0; q < orig; q++) if (l[q].k == src[i].k) { j = (int)q; break; } if (j >= 0) l[j].v = src[i].v; else l.push_back(src[i]); }
       RSortOwn(l);
+   }
+   // Intersect(other): entries whose key is not in `other` are removed front to back; an iterator standing on a removed entry keeps a copy and ends up on the
+   // nearest surviving entry in its direction (one pass; equivalent to removing one by one)
+   static uint32 RIntersect(World * w, int tab, RList & l, const RList & other)
+   {
+      const size_t n = l.size(); std::vector<char> keep(n); uint32 removed = 0;
+      for (size_t i = 0; i < n; i++) { keep[i] = (RFind(other, l[i].k) >= 0); if (!keep[i]) removed++; }
+      if (w) for (int s = 0; s < 2; s++) {
+         RefIter & r = w->ri[s]; if (!r.live || r.owner != tab || r.cursor == -1) continue;
+         const int i = RFind(l, r.cursor); if (i < 0 || keep[i]) continue;
+         r.saved = true; long j = i;
+         if (r.back) { while (j >= 0 && !keep[j]) j--; } else { while (j < (long)n && !keep[j]) j++; if (j >= (long)n) j = -1; }
+         r.cursor = (j >= 0) ? l[j].k : -1;
+      }
+      size_t o = 0; for (size_t i = 0; i < n; i++) if (keep[i]) l[o++] = l[i]; l.resize(o);
+      return removed;
    }
    static void RSwap(World & w) { w.m[T].swap(w.m[U]); for (int s = 0; s < 2; s++) { RefIter & r = w.ri[s]; if (r.live && r.owner >= 0) r.owner = 1 - r.owner; } }
 
